@@ -313,15 +313,19 @@ func c42Preserves(old, new c42Ident) (bool, string) {
 		newEff[n] = true
 	}
 	newUnion := new.union()
+	var goneEff, goneUnion []netip.Prefix
 	for _, n := range old.effective() {
-		if !newEff[n] && !newUnion[n] {
-			return false, fmt.Sprintf("overlay network %v is removed or altered (new networks %v)", n, new.effective())
+		if !newEff[n] {
+			goneEff = append(goneEff, n)
 		}
 	}
 	for n := range old.union() {
-		if !newEff[n] && !newUnion[n] {
-			return false, fmt.Sprintf("overlay network %v is removed or altered (new networks %v)", n, new.effective())
+		if !newUnion[n] {
+			goneUnion = append(goneUnion, n)
 		}
+	}
+	if len(goneEff) > 0 && len(goneUnion) > 0 {
+		return false, fmt.Sprintf("overlay network %v is removed or altered (new networks %v)", goneEff[0], new.effective())
 	}
 	if old.v2 != nil && new.v2 == nil {
 		a, b := map[netip.Prefix]bool{}, map[netip.Prefix]bool{}
